@@ -307,7 +307,7 @@ func ruleParseEntry(c *core.Ctx) {
 // ruleParserShapesInto re-keys the C07 parser rule under another rule name.
 func ruleParserShapesInto(c *core.Ctx, rule string) {
 	for _, fn := range srcFuncsOfPkg(c, "meta/signature") {
-		if !strings.Contains(fn.Name(), "nodify") && !strings.Contains(fn.Name(), "extract") {
+		if !isNodeBuilderOrHelper(c, fn, 0) {
 			continue
 		}
 		for _, b := range fn.Blocks {
@@ -318,7 +318,7 @@ func ruleParserShapesInto(c *core.Ctx, rule string) {
 				}
 				if bad, checked := parallelIndexUnchecked(fn, x); checked {
 					c.Check(!bad, rule, "parallel-index@"+core.FuncKey(fn), x.Pos(), "indexed slice and ranged slice have checked equal lengths",
-						"a slice is indexed with the loop variable of a range over another slice without a check that the two have the same length: a struct signature with fewer names than types indexes out of range (panic)")
+						"a slice is indexed with the loop variable of a range over another slice without a check that the two have the same length: a struct signature with fewer names than types indexes out of range, or leaves members of the list made for them without a type (panic, then or at the first use)")
 				}
 			}
 		}
